@@ -266,10 +266,13 @@ impl Spec {
     // -----------------------------------------------------------------------------------------
     // Printing
 
-    fn print_rule(&self, r: &Rule, id: u32, named: bool, out: &mut String, indent: &str) {
+    fn print_rule(&self, r: &Rule, id: u32, named: bool, out: &mut String, indent: &str, ov: Option<&(u32, String)>) {
         let mode = self.paren.to_paren();
         out.push_str(indent);
-        out.push_str(&print_re(&r.re, mode));
+        match ov {
+            Some((k, text)) if *k == id => out.push_str(text),
+            _ => out.push_str(&print_re(&r.re, mode)),
+        }
         if let Some(c) = &r.ctx {
             out.push_str(" > ");
             out.push_str(&print_re(c, mode));
@@ -304,6 +307,11 @@ impl Spec {
 
     /// The `lexer!` invocation alone, with the lexer called `name`.
     pub fn print_macro(&self, name: &str) -> String {
+        self.print_macro_with(name, None)
+    }
+
+    /// Same, with the regex of rule number `ov.0` replaced by the literal text `ov.1`.
+    pub fn print_macro_with(&self, name: &str, ov: Option<&(u32, String)>) -> String {
         let mode = self.paren.to_paren();
         let named = self.named();
         let mut o = String::new();
@@ -328,7 +336,7 @@ impl Spec {
                 }
                 Top::ErrorType => o.push_str("    type Error = rt::UErr;\n"),
                 Top::Rule(r) => {
-                    self.print_rule(r, id, named, &mut o, "    ");
+                    self.print_rule(r, id, named, &mut o, "    ", ov);
                     id += 1;
                 }
                 Top::RuleSet { name, items } => {
@@ -343,7 +351,7 @@ impl Spec {
                                 ));
                             }
                             Inner::Rule(r) => {
-                                self.print_rule(r, id, named, &mut o, "        ");
+                                self.print_rule(r, id, named, &mut o, "        ", ov);
                                 id += 1;
                             }
                         }
